@@ -59,18 +59,21 @@ def _parametric_bounds_array(dist_family, *args, **kwargs):
     from .intervals.number import Interval as I
 
     i_args = [wc_scalar_interval(b) for b in args]
+    kw_names = list(kwargs.keys())
+    kw_args = [wc_scalar_interval(v) for v in kwargs.values()]
+    n_pos = len(i_args)
 
-    if kwargs:
-        kw_args = [wc_scalar_interval(v) for v in kwargs.values()]
-        i_args = I(0.0, 0.0)
-        new_args = itertools.product(i_args.val, *[i.to_numpy() for i in kw_args])
-    else:
-        new_args = itertools.product(*[i.to_numpy() for i in i_args])
+    # every corner of the parameter box: positional parameters first, then the
+    # keyword parameters, which are handed to scipy under their own names
+    new_args = itertools.product(*[i.to_numpy() for i in i_args + kw_args])
+
+    def _kw(a):
+        return dict(zip(kw_names, a[n_pos:]))
 
     dist = named_dists[dist_family]
     g1, g2 = itertools.tee(new_args, 2)
-    bounds = [dist.ppf(Params.p_values, *a) for a in g1]
-    stats = [dist.stats(*a, moments="mv") for a in g2]
+    bounds = [dist.ppf(Params.p_values, *a[:n_pos], **_kw(a)) for a in g1]
+    stats = [dist.stats(*a[:n_pos], **_kw(a), moments="mv") for a in g2]
 
     means, vars_ = zip(*stats)
     mean = I(min(means), max(means))
